@@ -160,4 +160,11 @@ def build(tier):  # noqa: F811
     O.append(Obligation('miner.State::repay_debts', run_repay_gate, props_repay_gate,
                         descr='fee-debt gate (withdrawals, pre-commits, recovery declarations): passes only by repaying the whole debt out of unlocked balance, otherwise refuses and keeps the debt',
                         bounds='all ledgers and the balance symbolic', max_paths=200, expect_ok=True))
+    # every early-terminated sector is eventually charged: the backlog flag that keeps the fee-assessment cron going must be
+    # exact (obligation shared with C05 / C14)
+    from . import C05
+    for n in ([0, 1, 2] if tier == 'quick' else [0, 1, 2, 3]):
+        O.append(Obligation('miner.Partition::pop_early_terminations[queue entries=%d]' % n, C05.run_pop_et(n), C05.props_pop_et,
+                            descr='has_more reported iff entries remain (a stranded entry would never be assessed its termination fee); processed + remaining = queued',
+                            bounds='%d queue entries; sector sets by cardinality; CUT: Partition::validate_state' % n, max_paths=20000))
     return O
